@@ -591,6 +591,30 @@ impl XType {
                 }
                 Self::Compound(*ct, spec.clone(), new_bind).into()
             },
+            // function types mention generic parameters like any other type
+            Self::XCallable(spec) => Self::XCallable(XCallableSpec {
+                param_types: spec
+                    .param_types
+                    .iter()
+                    .map(|t| t.resolve_bind(bind, tail))
+                    .collect(),
+                return_type: spec.return_type.resolve_bind(bind, tail),
+            })
+            .into(),
+            Self::XFunc(spec) if !spec.is_generic() => Self::XFunc(XFuncSpec {
+                generic_params: None,
+                params: spec
+                    .params
+                    .iter()
+                    .map(|p| XFuncParamSpec {
+                        type_: p.type_.resolve_bind(bind, tail),
+                        required: p.required,
+                    })
+                    .collect(),
+                ret: spec.ret.resolve_bind(bind, tail),
+                short_circuit_overloads: spec.short_circuit_overloads,
+            })
+            .into(),
             _ => self.clone(),
         }
     }
